@@ -50,7 +50,8 @@ pub fn bytes_pool(seed: u64) -> Vec<Vec<u8>> {
 }
 
 pub fn ip_pool(seed: u64) -> Vec<IpAddr> {
-    let mut v: Vec<IpAddr> = ["1.2.3.4", "1.2.3.5", "255.255.255.255", "::1", "::ffff:1.2.3.4"]
+    // (the IPv6 addresses pairwise differ in several octets, in opposite directions)
+    let mut v: Vec<IpAddr> = ["1.2.3.4", "1.2.3.5", "255.255.255.255", "2.1.4.3", "::1", "::ffff:1.2.3.4", "2001:db8::1", "2001:db9::", "::1:ffff", "::2:0", "::100"]
         .iter()
         .map(|s| s.parse().unwrap())
         .collect();
